@@ -1,6 +1,7 @@
 package main
 
 import (
+	"context"
 	"encoding/json"
 	"flag"
 	"fmt"
@@ -211,6 +212,31 @@ func runProperty(v *Verifier, cfg *PropConfig, tier string, timeoutS int, agreem
 				os.RemoveAll(tmp)
 			}
 		}
+	}
+	// The declarations and axioms alone must not be contradictory (a contradictory axiom set would discharge every
+	// obligation vacuously; the per-path covers catch that too, this names the cause).
+	if len(out.results) > 0 {
+		ax := &Obligation{Name: "axioms/consistent", Kind: "cover", Cover: true, Unit: "(prelude)", Desc: "the declared axioms are not contradictory"}
+		if tmp, err := os.MkdirTemp("", "gvcax"); err == nil {
+			pre := v.W.prelude()
+			axioms := ""
+			if k := strings.Index(pre, ";;AXIOMS\n"); k >= 0 {
+				pre, axioms = pre[:k], pre[k:]
+			}
+			var qb strings.Builder
+			qb.WriteString(pre)
+			for _, av := range v.axiomVars {
+				fmt.Fprintf(&qb, "(declare-const %s %s)\n", av.at(0).S, av.Sort)
+			}
+			qb.WriteString(axioms)
+			qb.WriteString("\n(check-sat)\n")
+			r := runSolver(context.Background(), solvers[0], qb.String(), 5, tmp, "axioms")
+			ax.Verdict, ax.Solver, ax.Time = r.Verdict, r.Solver, r.Time
+			os.RemoveAll(tmp)
+		} else {
+			ax.Verdict = "unknown"
+		}
+		out.results[0].Obls = append(out.results[0].Obls, ax)
 	}
 	for _, r := range out.results {
 		for _, ob := range r.Obls {
